@@ -370,3 +370,6 @@ func PendingTimers() int { return 0 }
 // function called name (e.g. "encoding/asn1.Marshal"). Natively the real library runs, so every native
 // replay of a passing path doubles as a differential test of the model against the real library.
 func Redirect(name string, fn interface{}) {}
+
+// FixRandom makes the next randstr.RandomString calls return the given strings (engine only).
+func FixRandom(vals ...string) {}
